@@ -222,6 +222,8 @@ where
         }
 
         let frame = self.pager.write().read_page::<BtreePage>(id)?;
+        #[cfg(feature = "verif")]
+        crate::verif::sched::yield_point("page_fetched");
         self.accessor
             .as_mut()
             .ok_or(BtreeError::BtreeUnintialized)?
@@ -709,6 +711,8 @@ where
         data: Tuple,
         schema: &Schema,
     ) -> BtreeResult<()> {
+        #[cfg(feature = "verif")]
+        crate::verif::sched::yield_point("tree_write");
         let target_cursor = Tuple::keys_offset(schema.num_values());
         let search_result = self.page_search(
             self.get_root(),
@@ -820,6 +824,8 @@ where
         data: Tuple,
         schema: &Schema,
     ) -> BtreeResult<()> {
+        #[cfg(feature = "verif")]
+        crate::verif::sched::yield_point("tree_write");
         let target_cursor = Tuple::keys_offset(schema.num_values());
         let search_result = self.page_search(
             self.get_root(),
@@ -849,6 +855,8 @@ where
         data: Tuple,
         schema: &Schema,
     ) -> BtreeResult<()> {
+        #[cfg(feature = "verif")]
+        crate::verif::sched::yield_point("tree_write");
         let target_cursor = Tuple::keys_offset(schema.num_values());
         let search_result = self.page_search(
             self.get_root(),
@@ -875,6 +883,8 @@ where
         tuple: &Tuple,
         schema: &Schema,
     ) -> BtreeResult<()> {
+        #[cfg(feature = "verif")]
+        crate::verif::sched::yield_point("tree_write");
         let target_cursor = Tuple::keys_offset(schema.num_values());
         let search_result = self.page_search(
             self.get_root(),
@@ -913,6 +923,8 @@ where
         key: &[u8],
         schema: &Schema,
     ) -> BtreeResult<()> {
+        #[cfg(feature = "verif")]
+        crate::verif::sched::yield_point("tree_write");
         let start_pos: BtreePagePosition = Position::start_pos(page_id);
         let search = self.search(key, schema)?;
 
@@ -2040,6 +2052,8 @@ impl BtreePositionalIterator {
         if let Some(current) = self.current_page {
             self.current_page = self.tree.get_page(current)?.next_sibling();
             self.tree.accessor_mut()?.release(current);
+            #[cfg(feature = "verif")]
+            crate::verif::sched::yield_point("leaf_released");
             self.current_slot = 0;
 
             if let Some(next) = self.current_page {
